@@ -64,9 +64,11 @@ def isEmpty (m : SharedMemory) : Bool := len m == 0
 /-- `num_words(len) = len.saturating_add(31) / 32` -/
 def numWords (n : Nat) : Nat := U64ops.saturatingAdd n 31 / 32
 
-/-- `memory_gas(num_words) = MEMORY.saturating_mul(w).saturating_add(w.saturating_mul(w) / 512)`, MEMORY = 3 -/
+/-- `memory_gas(num_words)`: `MEMORY as u128 * w + w * w / 512` computed in `u128` (no wrap for a u64
+word count), saturated to `u64::MAX`; MEMORY = 3 -/
 def memoryGas (w : Nat) : Nat :=
-  U64ops.saturatingAdd (U64ops.saturatingMul 3 w) (U64ops.saturatingMul w w / 512)
+  let cost := 3 * w + w * w / 512
+  if cost > U64 - 1 then U64 - 1 else cost
 
 /-- `current_expansion_cost = memory_gas_for_len(self.len())` -/
 def currentExpansionCost (m : SharedMemory) : Nat := memoryGas (numWords (len m))
